@@ -1,4 +1,5 @@
 import PK.Properties.C03
+import PK.Properties.C03Round
 #print axioms PK.C03_call_amount
 #print axioms PK.C03_fold_tournament
 #print axioms PK.C03_fold_facing_bet
@@ -17,3 +18,10 @@ import PK.Properties.C03
 #print axioms PK.C03_full_all_ins_reopen
 #print axioms PK.C03_refuses_all
 #print axioms PK.C03_raise_bookkeeping
+#print axioms PK.round_step
+#print axioms PK.raise_up_plain
+#print axioms PK.C03_queue
+#print axioms PK.C03_waiting
+#print axioms PK.C03_round_ends
+#print axioms PK.tv_frame
+#print axioms PK.second_ge_min
